@@ -20,7 +20,7 @@ import re
 
 from ..alg import AlgError, Context, Rat
 from ..extract import Extractor, Closure, Opaque, _dotted
-from ..model import strip_comments, Program, walk_own, is_self_attr, dotted
+from ..model import strip_comments, Program, walk_own, is_self_attr, dotted, inline_temporaries
 from ..report import AnalysisError
 from ..slices import Affine
 from .. import locsets, stagger
@@ -241,7 +241,7 @@ def diff_stencils(rep, f, axis):
         try:
             tx, ty = stagger.selectors(s.targets[0], tloc)
             tsel, tother = (tx, ty) if axis == "x" else (ty, tx)
-            v = s.value
+            v = inline_temporaries(f.node, s.value, keep=("f", "result", "f_lower", "f_upper", "f_inner", "f_outer"))
             if not (isinstance(v, ast.BinOp) and isinstance(v.op, ast.Div) and isinstance(v.left, ast.BinOp) and isinstance(v.left.op, ast.Sub)):
                 raise StencilError("not of the form (a - b)/d")
             den = v.right
